@@ -213,6 +213,12 @@ pub mod lang;
 mod tokenizer;
 pub mod word_to_digit;
 
+/// Verification-only re-exports of crate-private items (compiled only with `--cfg text2num_verif`).
+#[cfg(text2num_verif)]
+pub mod verif_hooks {
+    pub use crate::tokenizer::{tokenize, BasicToken, Tokenize, WordSplitter};
+}
+
 pub use lang::{BasicAnnotate, LangInterpreter, Language};
 pub use word_to_digit::{
     find_numbers, find_numbers_iter, replace_numbers_in_stream, replace_numbers_in_text,
